@@ -67,9 +67,15 @@ func (evpool *Pool) verify(evidence types.Evidence) error {
 //      - the block ID's must be different
 //      - The signatures must both be valid
 func VerifyDuplicateVote(e *types.DuplicateVoteEvidence, chainID string, valSet *types.ValidatorSet) error {
-	_, val := valSet.GetByAddress(e.VoteA.ValidatorAddress)
+	idx, val := valSet.GetByAddress(e.VoteA.ValidatorAddress)
 	if val == nil {
 		return fmt.Errorf("address %X was not a validator at height %d", e.VoteA.ValidatorAddress, e.Height())
+	}
+
+	// The index is not covered by the signature: it must be the validator's index in the set of that height
+	if e.VoteA.ValidatorIndex != e.VoteB.ValidatorIndex || int64(e.VoteA.ValidatorIndex) != int64(idx) {
+		return fmt.Errorf("validator indices %d and %d do not match the validator's index %d at height %d",
+			e.VoteA.ValidatorIndex, e.VoteB.ValidatorIndex, idx, e.Height())
 	}
 
 	// H/R/S must be the same
